@@ -31,6 +31,8 @@ Sig == 8
 L(t) == CASE t = "IHDRa" -> 13 [] t = "IHDRb" -> 9 [] t = "IHDR5" -> 5
           [] t \in {"iCCP1", "iCCP2", "iCCPbad", "iCCPm1"} -> 17      \* name "a", NUL, method, 14 bytes of zlib
           [] t = "iCCP3" -> 3                                          \* name "a", NUL, method 0 and nothing else
+          [] t = "iCCPn79" -> 95                                       \* the longest name allowed (79 bytes), NUL, method, 14 bytes of zlib
+          [] t = "iCCPn80" -> 94                                       \* 80 name bytes without a terminator among them, 14 more
           [] t = "tEXt" -> 2 [] t \in {"IDAT", "IEND"} -> 0
 Size(t) == 8 + L(t) + 4
 \* what an IHDR token declares (width, height, depth) - distinct numbers, so a mix-up shows
@@ -73,9 +75,11 @@ Chunk ==
            [] t = "IHDR5" -> Fail(cut)                                   \* Length-9 wraps: reads until the input ends
            [] t \in {"iCCPm1", "iCCP3"} ->                               \* unknown method / nothing after the method byte
                 IF a < 11 THEN Fail(cut) ELSE Fail(pos + 11)
-           [] t \in {"iCCP1", "iCCP2", "iCCPbad"} ->
+           [] t = "iCCPn80" ->                                            \* no terminator within 80 bytes
+                IF a < 88 THEN Fail(cut) ELSE Fail(pos + 88)
+           [] t \in {"iCCP1", "iCCP2", "iCCPbad", "iCCPn79"} ->
                 IF a < Size(t) THEN Fail(cut)
-                ELSE /\ icc' = (CASE t = "iCCP1" -> "p1" [] t = "iCCP2" -> "p2" [] OTHER -> "err")
+                ELSE /\ icc' = (CASE t \in {"iCCP1", "iCCPn79"} -> "p1" [] t = "iCCP2" -> "p2" [] OTHER -> "err")
                      /\ IF mdx /\ t # "iCCPbad"
                         THEN res' = "ok" /\ taken' = end /\ UNCHANGED <<i, pos>>
                         ELSE i' = i + 1 /\ pos' = end /\ UNCHANGED <<res, taken>>
